@@ -206,7 +206,7 @@ verif_str_eq(&$a, $$s)
 |_e|
 //@end
 
-//@unit id=V1 file=src/validators/keep_sorted.rs fn=<<impl ValidatorSync for KeepSortedValidator::validate>> slice_from=<<let mut prev_value>> slice_through=<<for (line_number, line) in>>
+//@unit id=V1 file=src/validators/keep_sorted.rs fn=<<impl ValidatorSync for KeepSortedValidator::validate>> slice_from=<<let mut prev_value>> slice_to_block_end=1
 //@wrapper
 fn v1_loop<'a>(
     block_with_context: &'a BlockWithContext,
